@@ -514,4 +514,150 @@ theorem fdeclarator_ok (f : FD) (hwf : WFPLV f.params) (hty : ∀ x ∈ f.params
     show ((some "ID" : Option String) == some "TIMES") = false from rfl, Bool.false_eq_true, ↓reduceIte, hdir]
   rfl
 
+/-! ## prototypes: a function declarator that is not followed by a body -/
+
+/-- **`_parse_function_decl`** on `( parameters )` followed by anything but `{`: the same `FuncDecl`
+modifier, and *no* parameter name is registered (the parameters of a prototype have prototype scope) -/
+theorem functionDeclP_proto (l : PL) (hwf : WFPL l) (base : Val)
+    (hbase : base.isNode = true) (s : PState) (stop : Tk) (rest : List Tk) (hstop : stop.1 ≠ "LBRACE")
+    (hs : SeesT env s (("LPAREN", "(") :: (l.flat ++ ("RPAREN", ")") :: stop :: rest))) (G : Nat)
+    (hF : l.fuel + 1 ≤ G) :
+    ∃ s', run (G + 1) (.functionDecl base) s =
+        .ok (chainVal [.fn (X.coordOfVal base) (l.val (s.idx + 1))] .none) s' ∧
+      SeesT env s' (stop :: rest) ∧ s'.idx = s.idx + l.ntoks + 2 := by
+  obtain ⟨k0, v0⟩ := stop
+  obtain ⟨t, r, hfl, hds, _, hnr⟩ := param_head hwf.first
+  obtain ⟨s1, h1, hs1, hi1⟩ := expect_same s "LPAREN" "(" _ hs
+  have hs1' : SeesT env s1 ((t.1, t.2) :: (r ++ (paramsRestFlat l.more ++ ("RPAREN", ")") :: (k0, v0) :: rest))) := by
+    simpa [PL.flat, hfl, List.append_assoc] using hs1
+  obtain ⟨s2, h2, hs2, hi2⟩ := accept_other s1 _ "RPAREN" hs1' (by
+    intro k v r' h; simp only [List.cons.injEq, Prod.mk.injEq] at h; rw [← h.1.1]; exact hnr)
+  obtain ⟨s3, h3, hs3, hi3, _⟩ := peekType_spec s2 _ hs2
+  have hs3' : SeesT env s3 (l.flat ++ ("RPAREN", ")") :: (k0, v0) :: rest) := by
+    simpa [PL.flat, hfl, List.append_assoc] using hs3
+  obtain ⟨s4, h4, hs4, hi4⟩ := paramTypeList_ok l hwf s3 _ hs3' G (by omega)
+  obtain ⟨s5, h5, hs5, hi5⟩ := expect_same s4 "RPAREN" ")" _ hs4
+  have hco := valCoord_node hbase "base_decl.coord" s5
+  obtain ⟨s6, h6, hs6, hi6, _⟩ := peekType_spec s5 _ hs5
+  have e3 : s3.idx = s.idx + 1 := by omega
+  rw [e3] at h4
+  refine ⟨s6, ?_, hs6, by omega⟩
+  have hin : inSet (some t.1) declStart = true := mem_inSet hds
+  have hnb : ((some k0 : Option String) == some "LBRACE") = false := by simpa using hstop
+  show pFunctionDecl (run G) base s = _
+  simp only [pFunctionDecl, DeclSkel.bnd, h1, h2, Option.isSome_none, Bool.false_eq_true, ↓reduceIte, startsDeclaration, h3,
+    List.head?_cons, Option.map_some, hin, DeclSkel.pur, h4, h5, hco, h6, hnb]
+  rfl
+
+/-- **`_parse_function_decl`** on `( void )` followed by anything but `{` -/
+theorem functionDeclV_proto (base : Val) (hbase : base.isNode = true) (s : PState) (stop : Tk) (rest : List Tk)
+    (hstop : stop.1 ≠ "LBRACE")
+    (hs : SeesT env s (("LPAREN", "(") :: ("VOID", "void") :: ("RPAREN", ")") :: stop :: rest)) (G : Nat)
+    (hF : 10 ≤ G) :
+    ∃ s', run (G + 1) (.functionDecl base) s =
+        .ok (chainVal [.fn (X.coordOfVal base) (voidList (s.idx + 1))] .none) s' ∧
+      SeesT env s' (stop :: rest) ∧ s'.idx = s.idx + 3 := by
+  obtain ⟨k0, v0⟩ := stop
+  obtain ⟨G', rfl⟩ : ∃ G', G = G' + 1 := ⟨G - 1, by omega⟩
+  obtain ⟨s1, h1, hs1, hi1⟩ := expect_same s "LPAREN" "(" _ hs
+  obtain ⟨s2, h2, hs2, hi2⟩ := accept_other s1 _ "RPAREN" hs1 (by
+    intro k v r' h; simp only [List.cons.injEq, Prod.mk.injEq] at h; rw [← h.1.1]; decide)
+  obtain ⟨s3, h3, hs3, hi3, _⟩ := peekType_spec s2 _ hs2
+  obtain ⟨s4, h4, hs4, hi4⟩ := paramVoid_ok s3 _ hs3 G' (by omega)
+  obtain ⟨s5, h5, hs5, hi5, _⟩ := peekType_spec s4 _ hs4
+  obtain ⟨s6, h6, hs6, hi6, _⟩ := peekType_spec s5 _ hs5
+  obtain ⟨s7, h7, hs7, hi7⟩ := expect_same s6 "RPAREN" ")" _ hs6
+  have hco := valCoord_node hbase "base_decl.coord" s7
+  obtain ⟨s8, h8, hs8, hi8, _⟩ := peekType_spec s7 _ hs7
+  refine ⟨s8, ?_, hs8, by omega⟩
+  have e3 : s3.idx = s.idx + 1 := by omega
+  rw [e3] at h4
+  have hloop : run G' (.parameterListLoop [voidParam (s.idx + 1)]) s4 = .ok [voidParam (s.idx + 1)] s5 := by
+    obtain ⟨G'', rfl⟩ : ∃ G'', G' = G'' + 1 := ⟨G' - 1, by omega⟩
+    show pParameterListLoop (run G'') _ s4 = _
+    simp [pParameterListLoop, andM, peekIs, DeclSkel.bnd, h5, DeclSkel.pur]
+  have hptl : run (G' + 1) .parameterTypeList s3 = .ok (voidList (s.idx + 1)) s6 := by
+    show pParameterTypeList (run G') s3 = _
+    have hcf : ∀ st, coordOf (voidParam (s.idx + 1)) st = .ok (tc (s.idx + 1)) st := fun st => rfl
+    simp [pParameterTypeList, DeclSkel.bnd, h4, hcf, hloop, andM, peekIs, h6, DeclSkel.pur, voidList]
+  have hin : inSet (some "VOID") declStart = true := by decide
+  have hnb : ((some k0 : Option String) == some "LBRACE") = false := by simpa using hstop
+  show pFunctionDecl (run (G' + 1)) base s = _
+  simp only [pFunctionDecl, DeclSkel.bnd, h1, h2, Option.isSome_none, Bool.false_eq_true, ↓reduceIte, startsDeclaration, h3,
+    List.head?_cons, Option.map_some, hin, DeclSkel.pur, hptl, h7, hco, h8, hnb]
+  rfl
+
+theorem functionDeclPV_proto (pv : PLV) (hwf : WFPLV pv) (base : Val)
+    (hbase : base.isNode = true) (s : PState) (stop : Tk) (rest : List Tk) (hstop : stop.1 ≠ "LBRACE")
+    (hs : SeesT env s (("LPAREN", "(") :: (pv.flat ++ ("RPAREN", ")") :: stop :: rest))) (G : Nat)
+    (hF : pv.fuel + 1 ≤ G) :
+    ∃ s', run (G + 1) (.functionDecl base) s =
+        .ok (chainVal [.fn (X.coordOfVal base) (pv.val (s.idx + 1))] .none) s' ∧
+      SeesT env s' (stop :: rest) ∧ s'.idx = s.idx + pv.ntoks + 2 := by
+  cases pv with
+  | named l => exact functionDeclP_proto l hwf base hbase s stop rest hstop hs G hF
+  | void =>
+    obtain ⟨s', h, hs', hi⟩ := functionDeclV_proto base hbase s stop rest hstop (by simpa [PLV.flat] using hs) G
+      (by simpa [PLV.fuel] using hF)
+    exact ⟨s', h, hs', by simp only [PLV.ntoks]; omega⟩
+
+/-- what may follow the declarator of a prototype: the end of the declarator list item -/
+def EndsProto (k : String) : Prop := k = "SEMI" ∨ k = "COMMA"
+
+/-- **`_parse_declarator`** on `name ( parameters )` in a declaration (a prototype) -/
+theorem fdeclarator_proto (f : FD) (hwf : WFPLV f.params) (s : PState) (stop : Tk) (rest : List Tk)
+    (hstop : EndsProto stop.1)
+    (hs : SeesT env s (f.flat ++ stop :: rest)) (F : Nat) (hF : f.fuel ≤ F) :
+    ∃ s', run F (.declaratorKind .id true) s = .ok (f.di s.idx).raw s' ∧ SeesT env s' (stop :: rest) ∧
+      s'.idx = s.idx + f.ntoks := by
+  obtain ⟨k0, v0⟩ := stop
+  have hk0 : k0 ≠ "LBRACE" ∧ k0 ≠ "LPAREN" ∧ k0 ≠ "LBRACKET" := by
+    rcases hstop with h | h <;> simp only at h <;> subst h <;> exact ⟨by decide, by decide, by decide⟩
+  obtain ⟨G, rfl⟩ : ∃ G, F = G + 4 := ⟨F - 4, by simp only [FD.fuel] at hF; omega⟩
+  simp only [FD.fuel] at hF
+  have hs0 : SeesT env s (("ID", f.x) :: ("LPAREN", "(") :: (f.params.flat ++ ("RPAREN", ")") :: (k0, v0) :: rest)) := by
+    simpa [FD.flat, List.append_assoc] using hs
+  obtain ⟨s1, h1, hs1, hi1, _⟩ := peekType_spec s _ hs0
+  obtain ⟨s2, h2, hs2, hi2⟩ := accept_other s1 _ "LPAREN" hs1 (by
+    intro k v r h; simp only [List.cons.injEq, Prod.mk.injEq] at h; rw [← h.1.1]; decide)
+  obtain ⟨s3, h3, hs3, hi3⟩ := expect_same s2 "ID" f.x _ hs2
+  obtain ⟨s4, h4, hs4, hi4, _⟩ := peekType_spec s3 _ hs3
+  obtain ⟨s5, h5, hs5, hi5, _⟩ := peekType_spec s4 _ hs4
+  have hbase : (tdRaw f.x (tc s.idx)).isNode = true := rfl
+  obtain ⟨s6, h6, hs6, hi6⟩ := functionDeclPV_proto f.params hwf (tdRaw f.x (tc s.idx)) hbase s5 (k0, v0) rest hk0.1 hs5 G (by omega)
+  obtain ⟨s7, h7, hs7, hi7, _⟩ := peekType_spec s6 _ hs6
+  obtain ⟨s8, h8, hs8, hi8, _⟩ := peekType_spec s7 _ hs7
+  refine ⟨s8, ?_, hs8, by simp only [FD.ntoks]; omega⟩
+  have e5 : s5.idx = s.idx + 1 := by omega
+  rw [e5] at h6
+  have e2 : s2.idx = s.idx := by omega
+  have hco : X.coordOfVal (tdRaw f.x (tc s.idx)) = tc s.idx := rfl
+  rw [hco] at h6
+  have htm := typeModify_chain [] [.fn (tc s.idx) (f.params.val (s.idx + 2))] (tdRaw f.x (tc s.idx)) (by simp) rfl s6
+  simp only [chainVal, List.nil_append] at htm
+  have hsuf2 : run (G + 1) (.declSuffixesLoop (chainVal [.fn (tc s.idx) (f.params.val (s.idx + 2))] (tdRaw f.x (tc s.idx)))) s6 =
+      .ok (chainVal [.fn (tc s.idx) (f.params.val (s.idx + 2))] (tdRaw f.x (tc s.idx))) s8 := by
+    show pDeclSuffixesLoop (run G) _ s6 = _
+    simp [pDeclSuffixesLoop, DeclSkel.bnd, h7, h8, DeclSkel.pur, hk0.2.1, hk0.2.2]
+  have hsuf1 : run (G + 2) (.declSuffixesLoop (tdRaw f.x (tc s.idx))) s3 =
+      .ok (chainVal [.fn (tc s.idx) (f.params.val (s.idx + 2))] (tdRaw f.x (tc s.idx))) s8 := by
+    show pDeclSuffixesLoop (run (G + 1)) _ s3 = _
+    have h6' : run (G + 1) (.functionDecl (tdRaw f.x (tc s.idx))) s5 =
+        .ok (M.wrap (.fn (tc s.idx) (f.params.val (s.idx + 1 + 1))) .none) s6 := h6
+    have htm' : typeModifyDecl (tdRaw f.x (tc s.idx)) (M.wrap (.fn (tc s.idx) (f.params.val (s.idx + 1 + 1))) .none) s6 =
+        .ok (M.wrap (.fn (tc s.idx) (f.params.val (s.idx + 2))) (tdRaw f.x (tc s.idx))) s6 := htm
+    have hsuf2' : run (G + 1) (.declSuffixesLoop (M.wrap (.fn (tc s.idx) (f.params.val (s.idx + 2))) (tdRaw f.x (tc s.idx)))) s6 =
+        .ok (chainVal [.fn (tc s.idx) (f.params.val (s.idx + 2))] (tdRaw f.x (tc s.idx))) s8 := hsuf2
+    simp [pDeclSuffixesLoop, DeclSkel.bnd, h4, h5, h6', htm', hsuf2']
+  have hdir : run (G + 3) (.directDeclarator .id true) s1 =
+      .ok (chainVal [.fn (tc s.idx) (f.params.val (s.idx + 2))] (tdRaw f.x (tc s.idx))) s8 := by
+    show pDirectDeclarator (run (G + 2)) .id true s1 = _
+    simp only [pDirectDeclarator, ↓reduceIte, DeclSkel.bnd, h2, Option.isSome_none, Bool.false_eq_true, h3, tokCoord,
+      DeclSkel.pur, e2]
+    exact hsuf1
+  show pDeclaratorKind (run (G + 3)) .id true s = _
+  simp only [pDeclaratorKind, DeclSkel.bnd, h1, List.head?_cons, Option.map_some,
+    show ((some "ID" : Option String) == some "TIMES") = false from rfl, Bool.false_eq_true, ↓reduceIte, hdir]
+  rfl
+
 end PycModel.Params
